@@ -24,7 +24,7 @@ from common import Inconclusive, build_harness, run_vh, log
 
 def project(raw, fake):
     out = []
-    keep = {"Begin", "ExecCall", "ExecRet", "TermCall", "TermRet", "KillCall", "KillRet", "Event", "End"}
+    keep = {"Begin", "ExecCall", "ExecRet", "TermCall", "TermRet", "TermObs", "KillCall", "KillRet", "Event", "End"}
     for ev in raw:
         k = ev.get("ev")
         if k not in keep or (ev.get("actor") == "sup" and k != "Event"):
